@@ -469,7 +469,7 @@ func (s *Sel) checkTriggerTable(c *Ctx, ruleID, argsRuleID string) {
 			return "exitOnSkipped"
 		case raw == "p1":
 			return "arg1"
-		case raw == "p0.exitCode":
+		case raw == "p0."+s.FRunnerExitCode.Name():
 			return "exitCode"
 		}
 		return ""
